@@ -49,3 +49,33 @@ Proof.
        rewrite ?(Hch 511 i), ?(Hch 3584 i), ?(Hch 448 i), ?(Hch 1023 i) by (first [reflexivity | exact Hi]);
        reflexivity ]).
 Qed.
+
+(* restoreDirModes without PreservePermissions never drops a setuid/setgid/sticky bit that the
+   directory already has (e.g. the set-group-ID bit inherited from the working directory) nor
+   one that is recorded: the special bits of the result are exactly those two sets *)
+Lemma narrow_special cur m :
+  N.land (narrow_mode cur m) 3584 = N.lor (N.land cur 3584) (N.land m 3584).
+Proof.
+  apply N.bits_inj. intro i. unfold narrow_mode, perm_bits. bit_specs.
+  destruct (N.lt_ge_cases i 12) as [Hi|Hi].
+  - assert (Hc : i = 0 \/ i = 1 \/ i = 2 \/ i = 3 \/ i = 4 \/ i = 5 \/ i = 6 \/ i = 7 \/
+                 i = 8 \/ i = 9 \/ i = 10 \/ i = 11) by lia.
+    repeat (destruct Hc as [Hc|Hc]; [subst i; const_bits; var_bits; reflexivity|]).
+    subst i; const_bits; var_bits; reflexivity.
+  - rewrite (testbit_small 3584 12 i), (testbit_small 511 12 i) by (first [reflexivity|exact Hi]).
+    now rewrite !andb_false_r.
+Qed.
+
+(* ... and its permission bits are never wider than what the directory had *)
+Lemma narrow_never_widens cur m :
+  N.land (narrow_mode cur m) 511 = N.land (N.land cur 511) (N.land m 511).
+Proof.
+  apply N.bits_inj. intro i. unfold narrow_mode, perm_bits. bit_specs.
+  destruct (N.lt_ge_cases i 12) as [Hi|Hi].
+  - assert (Hc : i = 0 \/ i = 1 \/ i = 2 \/ i = 3 \/ i = 4 \/ i = 5 \/ i = 6 \/ i = 7 \/
+                 i = 8 \/ i = 9 \/ i = 10 \/ i = 11) by lia.
+    repeat (destruct Hc as [Hc|Hc]; [subst i; const_bits; var_bits; reflexivity|]).
+    subst i; const_bits; var_bits; reflexivity.
+  - rewrite (testbit_small 3584 12 i), (testbit_small 511 12 i) by (first [reflexivity|exact Hi]).
+    now rewrite !andb_false_r.
+Qed.
